@@ -8,6 +8,7 @@ import XmppModel.Lemmas.NegotiateTerm
 import XmppModel.Lemmas.NegotiateDriver
 import XmppModel.Lemmas.NegotiateTee
 import XmppModel.Lemmas.NegotiateDyn
+import XmppModel.Lemmas.NegotiateDynAdv
 import XmppModel.Lemmas.NegotiateFeats
 import XmppModel.Generated.C01
 /-!
@@ -543,6 +544,21 @@ theorem C01_dyn_monotone {d : DConf} (h : ReachD F O st0 script picks d) : sub s
 
 theorem C01_dyn_ready {d : DConf} (h : ReachD F O st0 script picks d) (hd : d.c.pc = .done) :
     has d.c.st bReady = true := (invC_reachD h).doneReady hd
+
+/-- **what the initiator keeps of a features list, for every config function** (review A, C01-3;
+lifts `C01_cached_advertised`): every feature kept from a list read in state `st` is one the config
+function returns **for that state** (`F st` — not for an earlier state of the stream: the stale
+configuration of seeded C01-18 on the initiating side), had its masks satisfied when the list was
+read, and is named by a child of the list, which is an item of the peer script -/
+theorem C01_dyn_cached_advertised {d : DConf} (h : ReachD F O st0 script picks d) {st : St}
+    {fs : List Feature} {adv : List AdvItem} {es : List Entry} (he : Ev.listIn st fs adv es ∈ d.c.tr) :
+    (adv = [] ∨ Peer.adv adv ∈ script) ∧
+    ∀ f ∈ fs, f ∈ F st ∧ eligible st f = true ∧ ∃ req, AdvItem.feat f.name req ∈ adv :=
+  (invPD_reach h).inOK st fs adv es he
+
+/-- while a features list is being read the configuration in force is the one for the current state -/
+theorem C01_dyn_config_current {d : DConf} (h : ReachD F O st0 script picks d)
+    (hr : inRead d.c.pc = true) : d.cfg = F d.c.st := cfgRead_reachD h hr
 
 /-- non-vacuity, and the seeded scenario: a receiver whose config function offers `login` and
 `extra` before authentication, `login` and `final` after it; `login` is mandatory, sets `Authn` and
